@@ -370,4 +370,15 @@ doc = {doc}
 {ASSERT}
 """
         out.append(mk_case(f"c01.subclass_docs.{cid}", [("a", "int"), ("u1", U)], body, pre=[f"I64(a) and BU({L}, u1)"]))
+    # in_range / not_in_range with a float bound: `range(lower, upper)` is undefined, so every item counts as not satisfying
+    # (float items and bounds concrete: a float against a symbolic int stalls z3)
+    for nm in ("in_range", "not_in_range"):
+        for bid, args in [("float_lower", "0.0, 5"), ("float_upper", "0, 5.0"), ("both_float", "1.5, 4.5"), ("none_upper", "0, None")]:
+            for kind, doc in [("value", "[2, 2.0, 2.5, True, '2', None, 7, 7.0, -1.0, [2], {}, u1]"), ("key", "{1: u1, 2.0: 'b', 2.5: 'c', 'k': 'd', None: 'e', 7.0: 0, -1.0: 1}")]:
+                body = f"""
+T = leaf({kind!r}, None, {nm!r}, {args})
+doc = {doc}
+{ASSERT}
+"""
+                out.append(mk_case(f"c01.{kind}.{nm}.{bid}.floats", [("u1", "Optional[str]")], body, pre=[f"BU({L}, u1)"]))
     return out
